@@ -44,7 +44,7 @@ func join(toks []string, style int) string {
 			case 0:
 				out += " "
 			case 2:
-				out += "\t\n "
+				out += "\t\r\n "
 			default:
 				// a blank is only needed between two name-like tokens
 				prev := toks[k-1]
@@ -54,6 +54,28 @@ func join(toks []string, style int) string {
 			}
 		}
 		out += t
+	}
+	return out
+}
+
+// safe makes an expression usable inside an assertion id (one line, no blanks).
+func safe(s string) string {
+	out := ""
+	for i := 0; i < len(s); i++ {
+		switch s[i] {
+		case ' ':
+			out += "_"
+		case '\t':
+			out += "\\t"
+		case '\r':
+			out += "\\r"
+		case '\n':
+			out += "\\n"
+		case ',':
+			out += ";"
+		default:
+			out += string(s[i])
+		}
 	}
 	return out
 }
@@ -125,11 +147,8 @@ func sameOutcome(r1 xsel.Result, e1 error, r2 xsel.Result, e2 error) bool {
 func RunPrecedence() {
 	doc, _ := hx.Build([]hx.Event{{N: hx.Elem{Name: "r"}}, {N: hx.Text{Val: "1"}}, {End: true}})
 	b := &hx.Built{Root: doc, Cursors: []xsel.Cursor{doc, doc.Children()[0]}}
-	styles := 3
-	if nd.Tier() == 0 {
-		styles = 2
-	}
-	style := nd.Choice(styles)
+	// quick: single blanks and CR/LF/tab runs; thorough: also no whitespace
+	style := []int{0, 2, 1}[nd.Choice(2+nd.Tier())]
 	var plain, paren []string
 	form := nd.Choice(3)
 	o1 := binops[nd.Choice(len(binops))]
@@ -159,13 +178,13 @@ func RunPrecedence() {
 	ps, qs := join(plain, style), join(paren, style)
 	g1, g2 := compile(ps), compile(qs)
 	nd.Reach("precedence")
-	nd.Assert(g1 != nil, "precedence.accepts:"+ps)
-	nd.Assert(g2 != nil, "precedence.accepts-parenthesised:"+qs)
+	nd.Assert(g1 != nil, "precedence.accepts:"+safe(ps))
+	nd.Assert(g2 != nil, "precedence.accepts-parenthesised:"+safe(qs))
 	if g1 == nil || g2 == nil {
 		return
 	}
 	set := []xsel.ContextApply{xsel.WithVariable("a", pickLeaf(b)), xsel.WithVariable("b", pickLeaf(b)), xsel.WithVariable("c", pickLeaf(b))}
 	r1, e1 := xsel.Exec(doc, g1, set...)
 	r2, e2 := xsel.Exec(doc, g2, set...)
-	nd.Assert(sameOutcome(r1, e1, r2, e2), "precedence.structure:"+ps)
+	nd.Assert(sameOutcome(r1, e1, r2, e2), "precedence.structure:"+safe(ps))
 }
